@@ -910,6 +910,10 @@ class Checker:
         exp_state = t["dst"] if ctx.phase in ("enter", "after") else t["src"]
         if ev.get("state") != exp_state and self.rtc:
             self.rej("C02.view-of-state", f"{ev['cb']} in phase {ctx.phase}: injected state {ev.get('state')} != {exp_state}")
+        edv = ev.get("ed_view")
+        if edv is not None and edv != [ev.get("state"), ev.get("source"), ev.get("target"), ev.get("event")]:
+            self.rej("C02.view-of-state", f"{ev['cb']} in phase {ctx.phase}: event_data (state, source, target, event) = {edv} differs "
+                                          f"from the injected parameters {[ev.get('state'), ev.get('source'), ev.get('target'), ev.get('event')]}")
         if self.rtc or not ctx.nested_seen:
             cur = self.state if self.state is not None else None
             if ctx.initial and not ctx.assigned:
